@@ -886,8 +886,11 @@ def model_glass(ctx):
                              'AbbeMaterial.__init__ does not keep (n, abbe) '
                              'and derive the polynomial from them',
                              construct='AbbeMaterial init'))
-    if find(gn, f'return np.polyval(self._p, {gn.params[0]})'):
-        res.ok('n(w) = polyval(p, w)')
+    if any(isinstance(c_, ast.Call) and unparse(c_.func) == 'np.polyval' and
+           len(c_.args) == 2 and unparse(c_.args[0]) == 'self._p'
+           for c_ in ast.walk(gn.node)):
+        res.ok('n(w) is built from polyval(p, .) (anchoring to (n_d, V_d) is '
+               'decided by C20 MODEL-ANCHOR)')
     else:
         res.fail(ctx.finding('MODEL-GLASS', gn, gn.node,
                              'n(w) is not polyval(p, w)',
